@@ -132,23 +132,23 @@ CHECKS = {
 # what was added to each check after its first description was written (DESIGN.md §8.3 / §8.4 say why)
 ADDED = {
     "C01": "Both arguments in every documented form: packages saved to a stream, a path or a real file object, opened from a path, a directory, an in-memory stream with its cursor at 0 / 4 / the end, or a real file object. Part names with percent-escapes; two sources in different directories spelling equal Targets for different parts. XML parts of non-Office vocabularies (application/xml, custom XML) compared by plain C14N, blanks kept.",
-    "C02": "Types of loaded parts are compared with the INPUT's own [Content_Types] at every save; every corpus deck is a start state once per run; a third of the non-default histories start with a save before any access; re-opens use the stream as the save left it; ops include re-assigning the same link / jump, dropping a layout and re-adding its image, same-stream / same-path saves. Relationship ids of loaded decks shifted / gapped / not of the form rId<N> (renumber_rids); manufactured decks whose notes-slide names are assigned by the harness at zip level; blank hyperlink Targets. Manufactured decks also re-spell internal Targets (absolute, './', up-and-down), carry slide ids out of order and grafted parts of unknown kinds. Start decks with a slide that is still related but no longer listed, and with a voided relationship (Target NULL) the slide's XML still uses; references unresolvable in the input are baseline.",
+    "C02": "Types of loaded parts are compared with the INPUT's own [Content_Types] at every save; every corpus deck is a start state once per run; a third of the non-default histories start with a save before any access; re-opens use the stream as the save left it; ops include re-assigning the same link / jump, dropping a layout and re-adding its image, same-stream / same-path saves. Relationship ids of loaded decks shifted / gapped / not of the form rId<N> (renumber_rids); manufactured decks whose notes-slide names are assigned by the harness at zip level; blank hyperlink Targets. Manufactured decks also re-spell internal Targets (absolute, './', up-and-down), carry slide ids out of order and grafted parts of unknown kinds. Start decks with a slide that is still related but no longer listed, and with a voided relationship (Target NULL) the slide's XML still uses; references unresolvable in the input are baseline. Slides deleted by the usual recipe (relationship dropped, p:sldId removed) among the operations; manufactured start decks that keep their slides in a folder other than /ppt/slides.",
     "C03": "Plus 64 / 3 000 histories on targets saturated with schema-permitted siblings (vlib/instgen.py, profile sat), a sweep assigning every in-domain value of every C09-table row and validating the part, and the documented rejections of that table re-validated. The fill operation reads colours after switching kind and assigns an unusable colour. fit_text (explicit font file) among the text-frame operations when a DejaVu font is installed. Positions given as floats (what Length arithmetic yields) to every add_* call. begin_connect / end_connect with an index no unsignedInt holds (a documented rejection).",
-    "C04": "A seventh prior state holds the assigned string in one run (reads alike, built differently); a third of the assignments go through a proxy object that was assigned through before; non-NFC text among the tokens. The kept proxy is read before it is assigned through.",
-    "C05": "Two links to near-variant addresses on one slide, strings of exactly the documented maximum length, non-NFC / non-NFKC strings, the same image bytes under a second file name (open finding). Strings spelling enumeration member names / values or Python constants. Two links sharing an address, one then cleared or re-pointed. Number format set on the categories before any category exists.",
-    "C06": "Unit families: every numbered part family (slide, notes slide, chart + workbook, image, media) x 9 irregular numberings of the members a loaded deck has x three further additions; manufactured start decks with dense-permuted / shifted / holed slide names and image indices shared across extensions; the repository's 2 700 tests run under the monitors. Every numeric @id of a part is counted (OLE fallback pictures); every r:id / r:embed / r:link must designate a relationship of the kind the attribute asks for; decks with a blank hyperlink Target. Ids are compared as numbers; id state 'padded' (zero-padded ids). A new relationship id that XML present before the operation already carried.",
+    "C04": "A seventh prior state holds the assigned string in one run (reads alike, built differently); a third of the assignments go through a proxy object that was assigned through before; non-NFC text among the tokens. The kept proxy is read before it is assigned through. Prior states with an equation (mc:AlternateContent inside a:p) and with a comment inside a:t; the independent reader takes string values and counts the text of children of a:p it has no name for.",
+    "C05": "Two links to near-variant addresses on one slide, strings of exactly the documented maximum length, non-NFC / non-NFKC strings, the same image bytes under a second file name (open finding). Strings spelling enumeration member names / values or Python constants. Two links sharing an address, one then cleared or re-pointed. Number format set on the categories before any category exists. The string in the extension position of a movie's file name; every saved package is read as a URI-conforming consumer would (member names against the OPC part-name grammar, Targets resolved as URI references: '#' and '?' are syntax).",
+    "C06": "Unit families: every numbered part family (slide, notes slide, chart + workbook, image, media) x 9 irregular numberings of the members a loaded deck has x three further additions; manufactured start decks with dense-permuted / shifted / holed slide names and image indices shared across extensions; the repository's 2 700 tests run under the monitors. Every numeric @id of a part is counted (OLE fallback pictures); every r:id / r:embed / r:link must designate a relationship of the kind the attribute asks for; decks with a blank hyperlink Target. Ids are compared as numbers; id state 'padded' (zero-padded ids). A new relationship id that XML present before the operation already carried. Injected ids include the largest xsd:unsignedInt and the spellings ' 7' / '+7'; the monitors compare ids as the numbers they denote.",
     "C07": "Corpus charts are grown by two series and shrunk to one series in alternate rounds (authored c:idx orders, multi-plot charts). REUSE steps: one chart-data object extended and used again; reads through plot proxies kept across replace_data.",
     "C08": "The same chart-data object re-used after it was extended (replace_data and a second add_chart); corpus charts shrunk to one series. Time-zone-aware datetime categories.",
-    "C09": "Driver toggles: a kept ancestor whose content is switched off and on (has_data_labels / has_title / has_legend / gridlines; fill.background() for colours) and the child re-accessed from it; None and inf/nan are out of domain for non-boolean properties; identical assignments repeated in sequences; a legend dragged in PowerPoint (edge-mode manual layout) as a fixture. Brightness on a colour that holds its luminance transforms twice. Toggles: the switch re-assigned the value it has must leave the child's properties alone. Rows for the marker and the line of a single point. Plot switches on XY / bubble / line / pie plots; gradient_angle = None; a presentation without p:sldSz (open finding).",
+    "C09": "Driver toggles: a kept ancestor whose content is switched off and on (has_data_labels / has_title / has_legend / gridlines; fill.background() for colours) and the child re-accessed from it; None and inf/nan are out of domain for non-boolean properties; identical assignments repeated in sequences; a legend dragged in PowerPoint (edge-mode manual layout) as a fixture. Brightness on a colour that holds its luminance transforms twice. Toggles: the switch re-assigned the value it has must leave the child's properties alone. Rows for the marker and the line of a single point. Plot switches on XY / bubble / line / pie plots; gradient_angle = None; a presentation without p:sldSz (open finding). A getter that fails with an internal error on a corpus object of the row's kind is a violation (it was a skip).",
     "C10": "Online half: 8 / 32 shards of histories in profile sat (targets saturated with minimal or randomly filled-in valid instances, choice members swapped) judged by M-INS (misplaced / excluded-by-sibling / inserted-outside-parent) and by the validated result of every op (out-of-order-after-op, duplicate c:dPt / c:dLbl per c:idx); hand-written adders are called with arguments from a table; change-to and group removers from parents holding every other member of the group; the repository's tests under the monitors. Unit api_removers: the API calls documented to remove or replace (brightness, TextFrame.clear, _Paragraph.clear) on parents where the kind stands several times.",
-    "C11": "Own and foreign enumeration members in the grid of enumerated attributes; every rejected value repeated on an attribute that already holds a value and through every parent's generated adder; equivalent lexical forms (percent / thousandths, universal measure / EMU, true / 1) must read alike; the repository's tests under the monitors. Strings in Python's number syntax ('+12345', '0x1234', '1_2345'); unit api_lexical: what each C09 row's assignment wrote is re-spelt in an equivalent schema-valid form (5pt / 0.1in, 50%, true) and read through the API, whatever route the reader takes. Zero-padded numbers among the equivalent forms (index look-ups by XPath string comparison: genuine defect, repaired cdb88002). Unit corpus_lexical: every corpus deck is traversed (C12's read-only traversal, all accessors) as it is and with its whole-number attributes zero-padded / booleans re-spelt; the readings must agree one by one. Unit defaults: every declared attribute default against the schema's default (55) or the standard's prose (text insets); ints beyond the range of a double. Huge finite floats and ints beyond a double in the grid.",
-    "C12": "Generated pre-states: orphaned jump targets, cell-linked chart titles (guarded reads followed), notes master referred to by notes slides only, half transforms; after saving, prefixes named by markup-compatibility attributes must stay declared and external relationship targets must equal the input's. An external relationship of the deck opened must still be in the straight save; every history with intermediate saves begins with a save before anything was read; eight manufactured decks (irregular names / ids, blank links) are inputs; the part graph expands every route to a shared part and compares which routes share one. Background objects of slides, layouts and masters obtained; pre-state foreign_guides (guides the preset does not define).",
+    "C11": "Own and foreign enumeration members in the grid of enumerated attributes; every rejected value repeated on an attribute that already holds a value and through every parent's generated adder; equivalent lexical forms (percent / thousandths, universal measure / EMU, true / 1) must read alike; the repository's tests under the monitors. Strings in Python's number syntax ('+12345', '0x1234', '1_2345'); unit api_lexical: what each C09 row's assignment wrote is re-spelt in an equivalent schema-valid form (5pt / 0.1in, 50%, true) and read through the API, whatever route the reader takes. Zero-padded numbers among the equivalent forms (index look-ups by XPath string comparison: genuine defect, repaired cdb88002). Unit corpus_lexical: every corpus deck is traversed (C12's read-only traversal, all accessors) as it is and with its whole-number attributes zero-padded / booleans re-spelt; the readings must agree one by one. Unit defaults: every declared attribute default against the schema's default (55) or the standard's prose (text insets); ints beyond the range of a double. Huge finite floats and ints beyond a double in the grid. White space around booleans, enumeration tokens and hexBinary colours, both at the attribute descriptors and through the API; class-required attributes the schema defaults are read in their omitted form.",
+    "C12": "Generated pre-states: orphaned jump targets, cell-linked chart titles (guarded reads followed), notes master referred to by notes slides only, half transforms; after saving, prefixes named by markup-compatibility attributes must stay declared and external relationship targets must equal the input's. An external relationship of the deck opened must still be in the straight save; every history with intermediate saves begins with a save before anything was read; eight manufactured decks (irregular names / ids, blank links) are inputs; the part graph expands every route to a shared part and compares which routes share one. Background objects of slides, layouts and masters obtained; pre-state foreign_guides (guides the preset does not define). Generated decks whose plot-level c:dLbls lack some of the optional switches or hold c:delete only.",
     "C13": "Manufactured decks (irregular slide names) as start decks, the saved zip checked for duplicate members and for the slides the deck already had; the layout gains a placeholder between two additions. Gapped relationship ids on the start decks. Step notes-old (notes for a slide the deck already had); the notes slides of the other slides and the saved slide ids are compared. hdr without a:xfrm and sldImg placeholders on layouts are generated again (they had been kept out).",
     "C14": "Cells holding only a field or only a line break; readings through _Cell proxies obtained at an earlier state; the graphic frame resized directly before row / column sizes are set. Frame-size conservation and random operations also on tables made by insert_table().",
-    "C15": "One path re-written with other bytes between additions; duck-typed streams not positioned at 0; re-open with JPEG parts typed image/jpg. Images with an EXIF orientation tag; a family of more than ten distinct images. Re-open with image parts relocated outside /ppt/media. OLE objects added without an icon: python-pptx's own template image (an EMF) is judged like any other.",
+    "C15": "One path re-written with other bytes between additions; duck-typed streams not positioned at 0; re-open with JPEG parts typed image/jpg. Images with an EXIF orientation tag; a family of more than ten distinct images. Re-open with image parts relocated outside /ppt/media. OLE objects added without an icon: python-pptx's own template image (an EMF) is judged like any other. File names XML cannot hold (control character, undecodable byte), streams that cannot seek, sizes of 0.",
     "C16": "Template / slide-show main types and the empty-string path are judged. Members differing only in case; parts added after opening a deck with gapped relationship ids, the saved package judged. Non-packages as open real file objects. Dangling targets that name a directory of the package.",
-    "C17": "Freeform builders converted or read midway and drawn further; additions to groups with turbo-add switched on. Groups built from members taken out of another group.",
-    "C18": "Time-zone-aware datetimes and non-str values for string properties are judged (the latter an open finding). White space around W3CDTF values; core parts that bind the namespaces to other prefixes.",
+    "C17": "Freeform builders converted or read midway and drawn further; additions to groups with turbo-add switched on. Groups built from members taken out of another group. A group without shapes has no box, and the instant after adding an empty sub-group is checked; members wrapped in mc:AlternateContent count.",
+    "C18": "Time-zone-aware datetimes and non-str values for string properties are judged (the latter an open finding). White space around W3CDTF values; core parts that bind the namespaces to other prefixes. Minute granularity judged against the W3C note; start decks with per-language keywords (cp:value children).",
     "C19": "Index leaves (index 0, zero-padded, multi-digit, without extension) in the accessor table; the repository's tests under the monitors. Leaves whose text recurs in a folder name. A leaf that starts with a period (.rels); the reference's own reading of it was corrected.",
     "C20": "A second shape of each type is read after the first one's adjustments were set; a round trip landing on a member of another enumeration is a violation of its own. Module-level aliases judged against the class docstrings that name them. The 711 member names of docs/api/enum/*.rst must exist.",
 }
